@@ -964,6 +964,8 @@ def _finalize_fairy(
         can_manipulate_connection = can_close_or_terminate_connection = True
         requires_terminate_for_close = False
 
+    reraise: Optional[BaseException] = None
+
     if dbapi_connection is not None:
         if connection_record and echo:
             pool.logger.debug(
@@ -1009,7 +1011,9 @@ def _finalize_fairy(
             if connection_record:
                 connection_record.invalidate(e=e)
             if not isinstance(e, Exception):
-                raise
+                # asyncio.CancelledError, KeyboardInterrupt, etc.; re-raised
+                # below once the record has been returned to the pool
+                reraise = e
         finally:
             if detach and is_gc_cleanup and dont_restore_gced:
                 message = (
@@ -1042,6 +1046,9 @@ def _finalize_fairy(
     del dbapi_connection
     del connection_record
     del fairy
+
+    if reraise is not None:
+        raise reraise
 
 
 # a dictionary of the _ConnectionFairy weakrefs to _ConnectionRecord, so that
